@@ -497,6 +497,10 @@ func RunModel(chunk *luaref.Block, setup func(in *luaref.Interp)) MOutcome {
 
 // ---- comparison ---------------------------------------------------------------------------------------
 
+// StrictExprLines: a reported line must lie within the lines of the innermost failing expression
+// (when the reference knows it), not merely within the statement.
+var StrictExprLines = true
+
 var posRe = regexp.MustCompile(`^` + regexp.QuoteMeta(ChunkName) + `:(\d+): ?`)
 
 func matchTok(m MTok, got string) bool {
@@ -525,7 +529,11 @@ func matchTok(m MTok, got string) bool {
 			return false
 		}
 		n, _ := strconv.Atoi(text[loc[2]:loc[3]])
-		if n < m.Op.Lo || n > m.Op.Hi {
+		lo, hi := m.Op.Lo, m.Op.Hi
+		if StrictExprLines && m.Op.ELo > 0 {
+			lo, hi = m.Op.ELo, m.Op.EHi
+		}
+		if n < lo || n > hi {
 			return false
 		}
 		if m.Op.Kind == "pos" {
@@ -542,9 +550,9 @@ func (t MTok) String() string {
 	}
 	switch t.Op.Kind {
 	case "fault":
-		return fmt.Sprintf("<run-time fault at line %d..%d>", t.Op.Lo, t.Op.Hi)
+		return fmt.Sprintf("<run-time fault at line %d..%d (expression %d..%d)>", t.Op.Lo, t.Op.Hi, t.Op.ELo, t.Op.EHi)
 	case "pos":
-		return fmt.Sprintf("<%q prefixed with position line %d..%d>", t.Op.Rest, t.Op.Lo, t.Op.Hi)
+		return fmt.Sprintf("<%q prefixed with position line %d..%d (expression %d..%d)>", t.Op.Rest, t.Op.Lo, t.Op.Hi, t.Op.ELo, t.Op.EHi)
 	case "endswith":
 		return fmt.Sprintf("<string ending with %q>", t.Op.Rest)
 	case "linenum":
